@@ -8,3 +8,8 @@ import Peppi.Props.C10
 #print axioms Peppi.Props.C10.readP_skip_G
 #print axioms Peppi.Props.C10.C10_slp_A
 #print axioms Peppi.Props.C10.peppiRead_written_skip
+#print axioms Peppi.Props.C10.example_A
+#print axioms Peppi.Props.C10.example_B
+#print axioms Peppi.Props.C10.example_C
+#print axioms Peppi.Props.C10.example_G
+#print axioms Peppi.Props.C10.example_A_roundtrip
